@@ -207,6 +207,13 @@ def ob_files(order, max_passes, n_cores, nfiles):
 
 
 HASHSEED_PROGRAMS = [
+    # two overused constants that get numbered names (set of AST nodes hashed by address)
+    "def f():\n" + "".join("    a%d = (1000001, 1000002, 1000003, 1000004)\n    b%d = {'k1': 2000001, 'k2': 2000002, 'k3': 3}\n" % (i, i) for i in range(6))
+    + "    return a0, b0, a5, b5\n\n\nprint(f())\n",
+    # one string value with two spellings in the original (restoration of the original spelling)
+    "a = 'spam eggs'\nb = \"spam eggs\"\nc = 'x'\nif c == None:\n    print(a, b, 'spam eggs')\n",
+    # order-dependent narrowing over a set of condition nodes
+    "ys = [x for x in range(100) if x > 3 if x > 5 if x > 7 if x > 9]\nzs = [x for x in range(50) if x < 40 if x < 30 if x >= 2 if x > 4]\nprint(ys, zs)\n",
     "import os\nimport sys\nimport re\nimport json\nfrom typing import List, Dict, Set\n\nprint(os.sep)\n",
     "def f(a, b, c):\n    unused1 = a\n    unused2 = b\n    unused3 = c\n    return 1\n\n\nprint(f(1, 2, 3))\n",
     "x = {3, 1, 2, 1, 3}\ny = {'b': 1, 'a': 2, 'b': 3}\nprint(x, y)\n",
@@ -227,9 +234,9 @@ def ob_hashseed():
     n = 0
     for prog in HASHSEED_PROGRAMS:
         outs = set()
-        for seed in ("0", "1", "2", "3"):
+        for seed in ("0", "1", "2", "3", "4", "5"):
             env = dict(os.environ, PYTHONHASHSEED=seed)
-            env.pop("PYTHONPATH", None)
+            env["PYTHONPATH"] = REPO
             p = subprocess.run([sys.executable, "-c", code], input=prog, capture_output=True, text=True, env=env, timeout=120)
             outs.add(p.stdout)
             n += 1
